@@ -137,12 +137,27 @@ class C17(Prop):
         for bound, ok in [(None, True), ([sx.b_pred(sx.wty(T, [sx.tb_trait(['PartialEq'])]))], False),
                           ([sx.b_pred(sx.wty(T, [sx.tb_trait(['Eq'])]))], True), ([], False),
                           ([sx.b_ty(T)], True)]:
-            for mode in ('attr', 'derive'):
-                it = sx.struct('X', sx.unnamed([sx.field(T)]), gen=gen)
-                tl = [('Eq', (bound, False)), ('PartialEq', None)]
-                req = sx.inv_attr(sx.dx(tl), it) if mode == 'attr' else sx.inv_derive(
-                    '(struct (' + sx.a_derive_ex(sx.dx(tl)) + ' ' + it[len('(struct ('):])
-                out.append((req, dict(features=('generic', mode, str(bound is None), str(ok)), ok=ok, nontrivial=True)))
+            # the same bound(..) at every level that can carry it: the Eq entry, the list, the field's own
+            # #[derive_ex(Eq(..))] / #[derive_ex(Eq, ..)], the field's #[eq(..)] and #[ord(..)] helpers
+            for place, mode in itertools.product(('entry', 'shared', 'field-entry', 'field-shared', 'field-eq', 'field-ord'),
+                                                 ('attr', 'derive')):
+                if bound is None and place != 'entry':
+                    continue
+                fattrs = {'field-entry': [sx.a_derive_ex(sx.dx([('Eq', (bound, False))]))],
+                          'field-shared': [sx.a_derive_ex(sx.dx([('Eq', None)], bnd=bound))],
+                          'field-eq': [sx.a_cmp('eq', sx.m_list(sx.cargs(bnd=bound)))],
+                          'field-ord': [sx.a_cmp('ord', sx.m_list(sx.cargs(bnd=bound)))]}.get(place, [])
+                it = sx.struct('X', sx.unnamed([sx.field(sx.tid('u8')), sx.field(T, attrs=fattrs)]), gen=gen)
+                tl = [('Eq', (bound, False) if place == 'entry' else None), ('PartialEq', None)]
+                sb = bound if place == 'shared' else None
+                req = sx.inv_attr(sx.dx(tl, bnd=sb), it) if mode == 'attr' else sx.inv_derive(
+                    '(struct (' + sx.a_derive_ex(sx.dx(tl, bnd=sb)) + ' ' + it[len('(struct ('):])
+                # a shared bound also restricts PartialEq: `bound()` / `bound(T: Eq)` leave `T == T` unproved for it
+                ok2 = ok and not (place == 'shared' and bound is not None and bound != [sx.b_ty(T)]
+                                  and bound != [sx.b_pred(sx.wty(T, [sx.tb_trait(['PartialEq'])]))])
+                if place == 'shared' and bound == [sx.b_pred(sx.wty(T, [sx.tb_trait(['Eq'])]))]:
+                    ok2 = True      # T: Eq implies T: PartialEq
+                out.append((req, dict(features=('generic', place, mode, str(bound is None), str(ok2)), ok=ok2, nontrivial=True)))
         return out
 
     def view(self, r, parts):
@@ -153,7 +168,7 @@ class C17(Prop):
         mods = []
         for r in results:
             head = ('#[::derive_ex::derive_ex(%s)]\n' % r.attr) if r.mode == 'A' else '#[derive(::derive_ex::Ex)]\n'
-            mods.append(l2.Module(r.cid, head + r.item + '\npub fn run() {}', r))
+            mods.append(l2.Module(r.cid, l2.decl(head, r.item, r.cid, every=5) + '\npub fn run() {}', r))
         nb = max(1, min(R.NPROC, len(mods) // 40 + 1))
         batches = [('c17_%d' % k, mods[k::nb]) for k in range(nb)]
         l2.compile_parallel(batches, prelude=PRELUDE, check_only=True)
